@@ -23,6 +23,11 @@ BUDGET = {'quick': 300, 'thorough': 20000}
 @st.composite
 def _case(draw, tier):
     src = draw(specs.sel_spec(min_nodes=3, max_nodes=8, max_incompat=1))
+    if draw(ints(0, 2)) == 0:
+        # design-variable and metric nodes in the source (their context string differs from their displayed string):
+        # they can be keys of an existence mapping like any other source node
+        src = draw(specs.add_dvs(src, max_dv=2))
+        src = draw(specs.add_metrics(src, max_met=2))
     if not src['choices']:
         src['nodes']['zz'] = {'k': 'gen'}
         src['nodes']['zy'] = {'k': 'gen'}
@@ -48,6 +53,9 @@ def _case(draw, tier):
             m = {'kind': 'option', 'src_choice': sc['id'], 'table': table}
         else:
             names = list(src['nodes'])
+            special = [n for n, nd in src['nodes'].items() if nd['k'] in ('dv', 'met')]
+            if special and draw(st.booleans()):
+                names = special+names[:2]
             order = draw(st.lists(st.sampled_from(names), min_size=1, max_size=3, unique=True))
             m = {'kind': 'exist', 'order': order, 'table': [draw(ints(0, n_opts-1)) for _ in order],
                  'none': draw(ints(0, n_opts-1))}
